@@ -15,18 +15,35 @@ import (
 
 const unit = int64(1800) * 1000 * 1000 * 1000 // 30 min in ns: real time spent replaying (ms) is negligible against it
 
+const unitS = int64(1800) // the time unit in seconds (rule periods are configured in seconds)
+
+// reload payload: accessDictSize + 1000*prisonDictSize + 10^6 * (0 | 1 + period + 100*stay + 10000*(threshold+1))
+func reloadPayload(a, p int, cfg bool, period, stay, th int64) int64 {
+	t := int64(a) + 1000*int64(p)
+	if cfg {
+		t += 1000000 * (1 + period + 100*stay + 10000*(th+1))
+	}
+	return t
+}
+
 func impl(in hv.Val) hv.Val {
 	l := hv.AsList(in)
-	p := mod_prison.VerifNewPrison(hv.AsInt(l[0])*unit, hv.AsInt(l[1])*unit, int32(hv.AsInt(l[2])), int(hv.AsInt(l[3])),
-		int(hv.AsInt(l[4])))
+	period, stay, th := hv.AsInt(l[0]), hv.AsInt(l[1]), hv.AsInt(l[2])
+	p := mod_prison.VerifNewPrison(period*unitS, stay*unitS, int32(th), int(hv.AsInt(l[3])), int(hv.AsInt(l[4])))
 	out := hv.L{}
 	var now int64
 	first := true
 	for _, ov := range hv.AsList(l[5]) {
 		o := hv.AsList(ov)
 		k := hv.AsInt(o[0])
-		if k == -2 { // reload with new dictionary sizes
-			p.Reload(int(hv.AsInt(o[1])))
+		if k == -2 { // reload
+			t := hv.AsInt(o[1])
+			low, hi := t%1000000, t/1000000
+			if hi > 0 {
+				h := hi - 1
+				period, stay, th = h%100, (h/100)%100, h/10000-1
+			}
+			p.Reload(period*unitS, stay*unitS, int32(th), int(low%1000), int(low/1000))
 			out = append(out, hv.Bool(false))
 			continue
 		}
@@ -41,7 +58,66 @@ func impl(in hv.Val) hv.Val {
 	return out
 }
 
+// reload histories: bursts that jail several keys, reloads that change the dictionary sizes (separately) and possibly
+// period/stay/threshold in between, then probes of all keys while the sentences still run
+func genReload(r *hv.Rng) (string, hv.Val) {
+	period := int64(2*r.Range(1, 4) + 1)
+	stay := int64(2 * r.Range(3, 8))
+	th := int64(r.Range(0, 2))
+	period0, stay0, th0 := period, stay, th
+	a0 := pickI(r, 1, 2, 3, 100)
+	p0 := pickI(r, 1, 2, 2, 3)
+	nkeys := r.Range(3, 6)
+	ops := hv.L{}
+	t := int64(2 * r.Range(0, 3))
+	class := "reload-caps"
+	burst := func(k int) {
+		for j := int64(0); j <= th; j++ {
+			ops = append(ops, hv.L{hv.Z(int64(k)), hv.Z(t)})
+		}
+	}
+	probe := func() {
+		for k := 0; k < nkeys; k++ {
+			ops = append(ops, hv.L{hv.Z(int64(k)), hv.Z(t)})
+		}
+	}
+	next := 0
+	for ; next < r.Range(0, 2) && next < nkeys; next++ {
+		burst(next)
+	}
+	nre := r.Range(1, 3)
+	for i := 0; i < nre; i++ {
+		a1 := pickI(r, 0, 1, 2, 3, 5, 100)
+		p1 := pickI(r, 1, 2, 3, 5, 100, 100)
+		cfg := r.Chance(1, 3)
+		if cfg {
+			class = "reload-cfg"
+			th = int64(r.Range(0, 3))
+			if r.Chance(1, 2) {
+				period = int64(2*r.Range(1, 4) + 1)
+			}
+			if r.Chance(1, 2) {
+				stay = int64(2 * r.Range(3, 8))
+			}
+		}
+		ops = append(ops, hv.L{hv.Z(-2), hv.Z(reloadPayload(a1, p1, cfg, period, stay, th))})
+		t += 2 * int64(r.Intn(2))
+		for j := r.Range(1, 4); j > 0 && next < nkeys; j-- {
+			burst(next)
+			next++
+		}
+		t += 2
+		probe()
+	}
+	t += 2
+	probe()
+	return class, hv.L{hv.Z(period0), hv.Z(stay0), hv.Z(th0), hv.Z(int64(a0)), hv.Z(int64(p0)), ops}
+}
+
 func gen(r *hv.Rng, i int, tier string) (string, hv.Val) {
+	if r.Chance(1, 6) {
+		return genReload(r)
+	}
 	period := int64(2*r.Range(0, 6) + 1) // odd number of units
 	stay := int64(2 * r.Range(0, 5))     // even
 	th := int64(r.Range(0, 5))
@@ -163,7 +239,8 @@ func gen(r *hv.Rng, i int, tier string) (string, hv.Val) {
 			k = -1
 		}
 		if r.Chance(1, 60) { // configuration reload: dictionaries are taken over, sizes can only grow
-			ops = append(ops, hv.L{hv.Z(-2), hv.Z(int64(pickI(r, 0, 1, 2, 4, 100)))})
+			rc := pickI(r, 0, 1, 2, 4, 100)
+			ops = append(ops, hv.L{hv.Z(-2), hv.Z(reloadPayload(rc, pickI(r, rc, rc, 1, 3, 100), false, 0, 0, 0))})
 		}
 		ops = append(ops, hv.L{hv.Z(k), hv.Z(t)})
 	}
